@@ -26,6 +26,15 @@ def showW : W → String
   | .lfr r => s!"lr={r}"
   | .epoch => "epoch"
   | .skipto => "skipto"
+  | .ned e h => s!"ned{e}:{h}"
+  | .ncd e h => s!"ncd{e}:{h}"
+  | .delNed e h => s!"del:ned{e}:{h}"
+  | .delNcd e h => s!"del:ncd{e}:{h}"
+  | .einfo e => s!"ei{e}"
+  | .cinfo e => s!"ci{e}"
+  | .jcp h => s!"j{h}"
+  | .pv r s => s!"pv{r}.{s}"
+  | .pc r s => s!"pc{r}.{s}"
 
 def showEntry : Entry → String
   | .put w => showW w
@@ -38,13 +47,28 @@ def showOpt (name : String) : Option Nat → String
   | some v => s!" {name}={v}"
   | none => s!" {name}=missing"
 
-def showOutcome : Outcome → String
+def bit (b : Bool) : String := if b then "1" else "0"
+
+def dash (l : List String) : String := if l.isEmpty then "-" else ",".intercalate l
+
+/-- the (epoch, block) pairs of a next-epoch table: epochs 0..6, block ids 0..9 -/
+def pairs (f : Nat → Nat → Bool) : String :=
+  dash (((List.range 7).flatMap (fun e => (List.range 10).filterMap (fun h =>
+    if f e h then some s!"{e}:{h}" else none))))
+
+def epochs (f : Nat → Bool) : String :=
+  dash ((List.range 7).filterMap (fun e => if f e then some (toString e) else none))
+
+def showOutcome (db : DB) : Outcome → String
   | .eBlock => "E-block"
   | .eTrie => "E-trie"
   | .eEpoch => "E-epoch"
   | .ok hd r s body f00 cur auth chg lr =>
     let pre := s!"ok b{hd.id}#{hd.number} r{r}.{s} st={pad3 hd.root}" ++
-      (if body then " body=ok" else " body=missing") ++ (if f00 then "" else " f00=missing")
+      (if body then " body=ok" else " body=missing") ++
+      s!" j={bit (db.jcp hd.id)} pv={bit (db.pv r s)} pc={bit (db.pc r s)}" ++
+      s!" ne={pairs db.ned} nc={pairs db.ncd} ei={epochs db.einfo} ci={epochs db.cinfo}" ++
+      (if f00 then "" else " f00=missing")
     match cur with
     | none => pre ++ " set=missing"
     | some c => pre ++ s!" set={c}" ++ showOpt "au" auth ++ showOpt "ch" chg ++ showOpt "lr" lr
@@ -55,17 +79,25 @@ def num? (s : String) (lo hi : Nat) : Option Nat :=
     let v := s.toNat!
     if lo ≤ v ∧ v ≤ hi then some v else none
 
+def parseChg : List String → Option (Option ChangeSpec)
+  | [] => some none
+  | ["sc", d, t] => do some (some (.sc (← num? d 0 99) (← num? t 0 99)))
+  | ["fc", d, bf, t] => do some (some (.fc (← num? d 0 99) (← num? bf 0 99) (← num? t 0 99)))
+  | _ => none
+
 def parseOp (op : String) : Option Op :=
   match words op with
-  | ["imp", id, p, k, v] => do
-    some (.imp (← num? id 1 9) (← num? p 0 9) (← num? k 0 2) (← num? v 0 9) none)
-  | ["imp", id, p, k, v, "sc", d, t] => do
-    some (.imp (← num? id 1 9) (← num? p 0 9) (← num? k 0 2) (← num? v 0 9)
-      (some (.sc (← num? d 0 99) (← num? t 0 99))))
-  | ["imp", id, p, k, v, "fc", d, bf, t] => do
-    some (.imp (← num? id 1 9) (← num? p 0 9) (← num? k 0 2) (← num? v 0 9)
-      (some (.fc (← num? d 0 99) (← num? bf 0 99) (← num? t 0 99))))
+  | "imp" :: id :: p :: k :: v :: rest =>
+    let (rest, nc) := if rest.getLast? = some "nc" then (rest.dropLast, true) else (rest, false)
+    let (rest, ne) := if rest.getLast? = some "ne" then (rest.dropLast, true) else (rest, false)
+    do
+      let chg ← parseChg rest
+      some (.imp (← num? id 1 9) (← num? p 0 9) (← num? k 0 2) (← num? v 0 9) chg ne nc)
   | ["fin", id, r, s] => do some (.fin (← num? id 0 9) (← num? r 0 99) (← num? s 0 99))
+  | ["gfin", id, r, s] => do some (.gfin (← num? id 0 9) (← num? r 0 99) (← num? s 0 99))
+  | ["just", id] => do some (.just (← num? id 0 9))
+  | ["pv", r, s] => do some (.pv (← num? r 0 99) (← num? s 0 99))
+  | ["pc", r, s] => do some (.pc (← num? r 0 99) (← num? s 0 99))
   | ["lr", r] => do some (.lr (← num? r 0 99))
   | _ => none
 
@@ -77,14 +109,15 @@ def parseOps : List String → Option (List Op)
     some (op :: rest)
 
 def step (line : String) : String :=
-  if line = "genesis" then showLog genesisLog ++ "|" ++ showOutcome (restart base)
+  if line = "genesis" then showLog genesisLog ++ "|" ++ showOutcome base (restart base)
   else
     let ops := line.splitOn ";"
     if ops.length > 40 then "bad-op"
     else match (parseOps ops).bind (runOps {} init []) with
       | none => "bad-op"
       | some (n, results) =>
+        if n.nondet then "nondet" else
         ";".intercalate results ++ "|" ++ showLog n.log ++ "|" ++
-          ";".intercalate ((prefixes base n.log).map (fun db => showOutcome (restart db)))
+          ";".intercalate ((prefixes base n.log).map (fun db => showOutcome db (restart db)))
 
 def main : IO Unit := runDriver step
